@@ -284,9 +284,12 @@ func uses(n string, withConst bool) []string {
 }
 
 func g1(c *fw.Ctx) {
-	for _, withConst := range []bool{false, true} {
+	// mode 0: no literal constant in scope; 1: const k = 2 in scope; 2: as 1, and the builtin has already been used
+	// (un-shadowed, inside an expression with k) before the binding form - the optimizer has seen it resolve to the builtin
+	for mode := 0; mode < 3; mode++ {
+		withConst := mode > 0
 		for _, f := range forms() {
-			c.Family("G1:"+f.name+map[bool]string{false: "", true: "+const"}[withConst], fmt.Sprintf("%d names x %d sites x use expressions", len(builtinNames), len(sites)))
+			c.Family("G1:"+f.name+[]string{"", "+const", "+const+prior-use"}[mode], fmt.Sprintf("%d names x %d sites x use expressions", len(builtinNames), len(sites)))
 			for _, n := range builtinNames {
 				for _, s := range sites {
 					for _, u := range uses(n, withConst) {
@@ -294,12 +297,18 @@ func g1(c *fw.Ctx) {
 							continue
 						}
 						p := f.build(n, s.mk(u))
-						if withConst {
+						switch mode {
+						case 1:
 							p.src = strings.Replace(p.src, "global (L); ", "global (L); const k = 2; ", 1)
+						case 2:
+							p.src = strings.Replace(p.src, "global (L); ", "global (L); const k = 2; pre0 := ["+n+"(\"7\") * k, k + "+n+"(1)]; ", 1)
 						}
 						if f.hidden {
 							// the use expression is a constant expression over the builtin
 							p.constSub = []string{"func() { const k = 2; return " + u + " }()", "func() { const k = 2; return " + s.mk(u)[strings.Index(s.mk(u), u):] + " }()"}
+						}
+						if mode == 2 {
+							p.constSub = append(p.constSub, "func() { const k = 2; return "+n+"(\"7\") * k }()", "func() { const k = 2; return k + "+n+"(1) }()")
 						}
 						check(c, p, []int{0, 1})
 					}
